@@ -183,7 +183,7 @@ _tg, _te = _thr.make(T_CALLS, ['geodepy/geodesy.py'], 'geodesy:vincdir:threads',
 SUBCHECKS = [
     Sub('direct', gen, ev, chunk=4, floor=1000, envs=6),
     Sub('mp', gen_mp, ev_mp, chunk=2, floor=100),
-    Sub('threads', _tg, _te, chunk=1, floor=3, poison=False, fresh=True),
+    Sub('threads', _tg, _te, chunk=1, floor=3, poison=False, fresh=True, timeout=3600),
 ]
 
 
